@@ -63,8 +63,10 @@ CLAIMS["C05"] = {
             "each instruction opening k blocks is immediately followed by exactly k blocks, that Close ends the innermost block / is ignored at top level, and "
             "that open blocks are closed at the end.",
     "note": "Trusted: vstd's model of vec::IntoIter plus one axiom (exhausted iterator has measure 0) used only for the decreases argument. The generic "
-            "`impl Iterator<Item = PushGene>` parameter is instantiated at std::vec::IntoIter<PushGene> (what From<Plushy> passes).",
-    "design_ref": "DESIGN.md §4 parser, §6 C05",
+            "`impl Iterator<Item = PushGene>` parameter is instantiated at std::vec::IntoIter<PushGene> (what From<Plushy> passes). Fallback for rewritten parsers (the extractor "
+            "then answers UNDECIDED; CBMC cannot carry PushProgram): the compiled conversion is executed natively on EVERY genome of length 0..=6 (thorough 0..=8) over all seven gene "
+            "kinds and compared with an independent recursive descent — an exhaustive enumeration by execution, no verifier involved, listed under `bounded`, never counted as discharged.",
+    "design_ref": "DESIGN.md §4 parser, §6 C05, §12.4b",
 }
 KANI_NOTE = ("Bounded: CBMC explores every execution of the real compiled crates (including rand 0.9) within the stated collection-size bound, for all "
              "element values and all random streams (each word handed to rand is an unconstrained symbolic value; after the stated number of symbolic "
